@@ -76,6 +76,8 @@ struct Model {
     disk: Option<(String, Files)>,
     view: Files,
     pending: Files,
+    /// how the manifest was damaged last (labels the failure signature)
+    damage: Option<&'static str>,
 }
 
 struct Run {
@@ -174,7 +176,8 @@ impl Run {
     /// Every blob path named in the manifest file on disk exists and has a valid header.
     fn check_disk_refs(&self) -> Result<usize, Fail> {
         let Ok(text) = std::fs::read_to_string(self.root.join("manifest.toml")) else {
-            return Err(("save:manifest-unreadable".into(), "after save() there is no readable manifest.toml".into()));
+            // no manifest file = a saved build without entries (the reopen checks decide)
+            return Ok(0);
         };
         let mut n = 0;
         for line in text.lines() {
@@ -215,7 +218,7 @@ impl Run {
         } else if self.m.disk.is_some() {
             "reopen-other-key"
         } else {
-            "reopen-no-manifest"
+            self.m.damage.unwrap_or("reopen-no-manifest")
         };
         self.compare_all(when)
     }
@@ -289,6 +292,7 @@ impl Run {
         }
         self.m.view = std::mem::take(&mut self.m.pending);
         self.m.disk = Some((key.to_string(), self.m.view.clone()));
+        self.m.damage = None;
         self.compare_all("save")?;
         let refs = self.check_disk_refs()?;
         let want: usize = self
@@ -454,6 +458,7 @@ fn tamper(d: &mut Draw, r: &mut Run) {
     }
     r.flag("tamper");
     r.m.disk = None;
+    r.m.damage = Some(if r.log.last().is_some_and(|l| l.contains("schema")) { "reopen-other-schema" } else { "reopen-damaged-manifest" });
 }
 
 fn history(d: &mut Draw, r: &mut Run, keys: &[String], max_sessions: usize) -> Result<(), Fail> {
@@ -524,7 +529,7 @@ pub fn run(ctx: &Ctx) {
         let mut r = Run {
             root: case_dir.join("cache"),
             store: None,
-            m: Model { disk: None, view: Files::new(), pending: Files::new() },
+            m: Model { disk: None, view: Files::new(), pending: Files::new(), damage: None },
             pool: blob_pool(),
             log: vec![],
             saves: 0,
